@@ -42,7 +42,7 @@ ASSUMPTIONS = ["call-level interleavings only (single-threaded); thread pre-empt
                "chain spans cover every time used in the process except in the dedicated K3 scenario"]
 REQUIRED = ["C10:fresh-identical", "C10:after-history", "C10:interleaved", "C10:all-interleavings",
             "C10:same-as-alone-in-fresh-interpreter", "C10:backtest-same-as-step-loop", "C10:copy-continues-identically", "C10:returned-record-unchanged-by-later-episodes"]
-REQUIRED_CATS = ["scenario:used-transmitter-other-latency", "kind:xy", "alone-kind:xy", "alone-kind:spot", "alone-kind:chain", "kind:chain", "kind:spot", "kind:discrete", "history:abandon", "history:full", "history:otherfold", "history:error", "history:refused-reset",
+REQUIRED_CATS = ["fit-transformers-from-a-shared-config", "scenario:used-transmitter-other-latency", "kind:xy", "alone-kind:xy", "alone-kind:spot", "alone-kind:chain", "kind:chain", "kind:spot", "kind:discrete", "history:abandon", "history:full", "history:otherfold", "history:error", "history:refused-reset",
                  "history:insolvency", "history:windowed", "scenario:K3-construction", "kind:default-state"]
 TECHNIQUE = "runtime monitoring: twin-run comparison of canonical call digests; exhaustive call-level interleavings of two short episodes"
 LEVEL_TEXT = ("Exploration plus an exhaustive enumeration of the call-level interleavings of two short episodes for a few environment "
@@ -120,6 +120,9 @@ def alone_episode(spec, fold):
     return episode(env, acts, fold)
 
 
+FIT_CFG = {"fold": "late"}       # one configuration object, shared by every environment built from it
+
+
 def build(spec, share=None):
     """share = {"L": latency[, "tr": an existing Transmitter holding this spec's data]}: build the environment
     with that latency and, if given, on that (already used) transmitter; a transmitter built here is stored in it."""
@@ -188,8 +191,21 @@ def build(spec, share=None):
             kw["state"] = [FA(cs), FeaturePortfolioWeight(cs, -3, 3), FeatureSpread(cs)] + ([FP()] if rng.random() < 0.6 else [])
         else:
             kw["state"] = IState()
-    env = TradingEnv(action_space=space, transmitter=tr, latency=L, steps_delay=d, broker_fees=fees, reward=reward,
-                     initial_cash=1e6, **kw)
+    if kind == "spot" and seed % 4 == 0 and not default_state:
+        # feature transformers fitted at construction on a fold named in a configuration dict that the caller keeps
+        # and reuses for every environment it builds (an experiment config)
+        from tradingenv.library import FeaturePrices
+        kw["state"] = [FeaturePrices(cs)]
+        kw["fit_transformers"] = FIT_CFG
+    try:
+        env = TradingEnv(action_space=space, transmitter=tr, latency=L, steps_delay=d, broker_fees=fees, reward=reward,
+                         initial_cash=1e6, **kw)
+    except EndOfEpisodeError:
+        # (the warm-up backtest of fit_transformers over a window without a single decision - DESIGN 4.2-f: the
+        #  environment is built without fitting instead)
+        kw.pop("fit_transformers", None)
+        env = TradingEnv(action_space=space, transmitter=tr, latency=L, steps_delay=d, broker_fees=fees, reward=reward,
+                         initial_cash=1e6, **kw)
     env._vf_default_state = default_state
     stateful = isinstance(kw.get("state"), list) or kind == "chain"
     return env, acts, bad, stateful
@@ -360,6 +376,11 @@ def case(ctx, i, tier):
     fold = rng.choice(["training-set", "late"])
     ctx.cat("kind:" + specA[0], "kind:" + specB[0])
     A, aA, badA, stA = build(specA)
+    if specA[0] == "spot" and specA[1] % 4 == 0:
+        ctx.check("C10:callers-configuration-untouched", FIT_CFG == {"fold": "late"}, config=dict(FIT_CFG))
+        FIT_CFG.clear()
+        FIT_CFG.update({"fold": "late"})
+        ctx.cat("fit-transformers-from-a-shared-config")
     dsA = specA[0] == "default-state"
     TA = episode(A, aA, fold)
     ctx.sample = {"A": specA, "B": specB, "fold": fold, "calls_in_baseline": len(TA)}
